@@ -13,6 +13,21 @@ def _c10_nontrivial(case, impl):
     return True
 
 
+def _c10_equal(case, impl, model):
+    """dec/decbig: values, offsets and unread counts must agree and both must end in an error; WHICH error (eof, crlf,
+    badint, … or the run-time refusal of an absurd length) is not part of the property ("yields an error, never a value"),
+    so a decoder that reports a different one for the same malformed input is not a violation."""
+    if impl == model:
+        return True
+    if case.split(" ", 1)[0] not in ("dec", "decbig"):
+        return False
+    a, sa, ca = impl.rpartition("!")
+    b, sb, cb = model.rpartition("!")
+    if not sa or not sb or ca.startswith("inconsistent") or cb.startswith("inconsistent"):
+        return False
+    return a == b
+
+
 PROPS["C10"] = {
     "level_text": "Kernel-checked theorems about a Lean model of pkg/redis (decoder with its explicit offset counter, encoder incl. the "
                   "pre-rendered imap table whose bounds are regenerated from the source, ParseArgs/ChangeArgsToResp): round trip for EVERY "
@@ -33,11 +48,14 @@ PROPS["C10"] = {
             "returning random fragment sizes (1..7 or up to 5000 bytes, isolated empty reads, final data with or without io.EOF) into bufio "
             "readers of size 16..80 or default; EVERY position of ~200 small encodings x (14 chosen bytes + 4 neighbours; all 255 values for "
             "12 of them, for all in thorough), every truncation, one-byte deletion and insertion, with and without a following sentinel value; "
+            "decbig: bulk values of 4094..262145 bytes and around 64 KiB and 1 MiB (thorough: up to 20 MB) alone, behind keep-alives, inside a "
+            "command array and followed by another value, cut short or with a wrong terminator (long values compared by length and FNV-1a); "
             "itos: table boundaries ±8 (thorough: every integer -1100..525400) + random; pint: integer texts around ±2^63, signs, zeros, foreign "
             "bytes; args/chg: command arrays incl. nil/empty command and nil arguments, non-array and non-bulk shapes. "
-            "Compared per case: canonical tree rendering, error class (eof|crlf|badint|byteslen|arraylen|badtype|alloc), decoder offset after "
+            "Compared per case: canonical tree rendering, that the stream ends in an error (the class eof|crlf|badint|byteslen|arraylen|badtype|alloc is reported, not compared), decoder offset after "
             "each value, bytes left unread. non-trivial = streams/texts of at least 2 bytes and every other case; distinct by case text",
     "nontrivial": _c10_nontrivial,
+    "equal": _c10_equal,
     "trusted": [
         "Go bufio.Reader (ReadByte/UnreadByte/ReadBytes), io.ReadFull, bytes.Buffer/bufio.Writer: modelled as operations on the plain byte sequence",
         "strconv.ParseInt(s,10,64)/FormatInt/Itoa: restated in Lean (parseInt/fmtInt), proved inverse there, assumed equal to Go's (compared on every pint/itos case)",
